@@ -624,6 +624,22 @@ def dup_check_problems(prog: Program, f: FuncInfo) -> List[Tuple[int, str]]:
     adds = [n for n in cfg.stmt_nodes() for c in calls_in(n) if isinstance(c.func, ast.Attribute) and c.func.attr == 'add' and c.args and dotted(c.args[0]) == idv]
     if not adds:
         out.append((f.node.lineno, 'checked ids are not recorded for later duplicate checks'))
+    else:
+        # ... for good: when the ids are collected in a working copy, the copy is stored back on every path that returns normally
+        recv = None
+        for n in adds:
+            for c in calls_in(n):
+                if isinstance(c.func, ast.Attribute) and c.func.attr == 'add':
+                    recv = dotted(c.func.value)
+        if recv and not recv.startswith('self.'):
+            commits = [n for n in cfg.stmt_nodes() if isinstance(n.ast, ast.Assign) and len(n.ast.targets) == 1 and
+                       (dotted(n.ast.targets[0]) or '').startswith('self.') and dotted(n.ast.value) == recv]
+            reached_without = cfg.exit.id in cfg.reachable(cfg.entry, avoid_nodes=commits + adds, edge_ok=lambda e: e.label != 'exc') if commits else True
+            # a path that adds an id must pass a commit before the normal exit
+            uncommitted = not commits or any(cfg.exit.id in cfg.reachable(a, avoid_nodes=commits, edge_ok=lambda e: e.label != 'exc') for a in adds)
+            if uncommitted:
+                out.append((adds[0].line, f'the ids are added to the working copy `{recv}` but it is not stored back (self.… = {recv}) on every returning path: '
+                            f'the batch forgets the ids it has seen, so an id repeated by a later append / extend is accepted'))
     return out
 
 
